@@ -28,6 +28,14 @@ Pred = Union[
 _T_out = TypeVar("_T_out", bound=Any, covariant    =True)
 _T_in  = TypeVar("_T_in" , bound=Any, contravariant=True)
 
+def _literal_or_raw(state: Any) -> Any:
+    """Pickle a reward state as its repr when literal_eval can read it back and as is otherwise (e.g. Categorical, nan, inf)."""
+    text = repr(state)
+    try:
+        return text if literal_eval(text) == state else state
+    except Exception:
+        return state
+
 class Namespaces(dict):
     pass
 
@@ -584,10 +592,10 @@ class BinaryReward(Rewards):
             o._value == self._value)
 
     def __getstate__(self):
-        return repr((self._argmax,) if self._value == 1 else (self._argmax,self._value))
+        return _literal_or_raw((self._argmax,) if self._value == 1 else (self._argmax,self._value))
 
     def __setstate__(self,args):
-        args = literal_eval(args)
+        args = literal_eval(args) if isinstance(args,str) else args
         self._argmax,self._value = (args[0],1) if len(args) == 1 else args
 
     def __repr__(self) -> str:
@@ -622,10 +630,10 @@ class HammingReward(Rewards):
         return create_shape(value,shape)
 
     def __getstate__(self):
-        return repr(self._argmax)
+        return _literal_or_raw(self._argmax)
 
     def __setstate__(self,args):
-        self._argmax = literal_eval(args)
+        self._argmax = literal_eval(args) if isinstance(args,str) else args
 
     def __repr__(self) -> str:
         am = self._argmax
@@ -693,7 +701,7 @@ class DiscreteReward(Rewards):
             o._default == self._default)
 
     def __getstate__(self):
-        return repr((self._state,self._default))
+        return _literal_or_raw((self._state,self._default))
 
     def __setstate__(self,args):
-        self._state,self._default = literal_eval(args)
+        self._state,self._default = literal_eval(args) if isinstance(args,str) else args
